@@ -346,14 +346,20 @@ fn size_worker() -> Result<u64, String> {
         .spawn()
         .map_err(|e| e.to_string())?;
     let start = Instant::now();
+    // drain the worker's output while it runs (it would block on a full pipe otherwise)
+    let reader = child.stdout.take().map(|mut so| {
+        std::thread::spawn(move || {
+            use std::io::Read;
+            let mut out = String::new();
+            let _ = so.read_to_string(&mut out);
+            out
+        })
+    });
+    let mut reader = reader;
     loop {
         match child.try_wait().map_err(|e| e.to_string())? {
             Some(status) => {
-                let mut out = String::new();
-                use std::io::Read;
-                if let Some(mut so) = child.stdout.take() {
-                    let _ = so.read_to_string(&mut out);
-                }
+                let out = reader.take().and_then(|h| h.join().ok()).unwrap_or_default();
                 let last_started = out.lines().filter_map(|l| l.strip_prefix("START ")).last().unwrap_or("?").to_string();
                 if !status.success() {
                     return Err(format!("the worker died ({status:?}) while parsing the stressor `{last_started}`"));
@@ -399,6 +405,18 @@ pub fn stressors() -> Vec<(String, String)> {
         let hs = "#".repeat(h);
         v.push((format!("raw string with {h} hashes"), format!("s == r{hs}\"a\"{hs}")));
         v.push((format!("unterminated raw string with {h} hashes"), format!("s == r{hs}\"a\"")));
+    }
+    // runs of one character around the widths of narrow counters (u8, u16), behind every prefix
+    // that puts the lexer into a different state
+    for prefix in ["s == r\"a\"", "s == r#\"a\"", "s == r##\"a\"#", "s == r#\"", "s == \"a", "s == \"a\\", "s == ", "i == ", "i == 0x", "i == 0", "i in {1..", "xi[", "ms[\"", "s wildcard \"", "s matches \"a", "ip == 1.2.3.4/", "ip == ::", "idb("] {
+        for unit in ["#", "\"", "\\", "*", ".", ":", "-", "0", "7", "f", "(", "[", " ", "\n"] {
+            for count in [254usize, 255, 256, 257, 65535, 65536, 65537] {
+                v.push((format!("{prefix:?} followed by {count} x {unit:?}"), format!("{prefix}{}", unit.repeat(count))));
+                if count <= 257 {
+                    v.push((format!("{prefix:?} followed by {count} x {unit:?} and a closing quote"), format!("{prefix}{}\"", unit.repeat(count))));
+                }
+            }
+        }
     }
     v.push((format!("call with {n} arguments"), format!("concat({}) == \"a\"", vec!["s"; n].join(", "))));
     v.push((format!("identifier of {n} characters"), "a".repeat(n)));
